@@ -424,14 +424,37 @@ Definition link_ok (s : state) (x : nat) : Prop :=
 Definition single_followers (s : state) (x : nat) : Prop :=
   forall u g fs y, followers (gget s u g) x = Some fs -> In y fs -> forall g', In y (gget s u g') -> g' = g.
 
-Definition resize_ok (s : state) (x : nat) : Prop := link_ok s x /\ single_followers s x.
+(* value-based: the signals that a change of the size of x by a actually moves in a group (every
+   follower on shrink, the followers the push reaches on growth; positions p) are held by that
+   group only. The Coq counterpart of vinv.SharedFollowerMoved (props/common/vinv/d35.go). *)
+Definition single_moved (s : state) (p : nat -> Z) (x : nat) (a : Z) : Prop :=
+  forall u g y, In y (moved_in (sz s) p (gget s u g) x a) -> forall g', In y (gget s u g') -> g' = g.
+
+Lemma single_followers_moved : forall s x, single_followers s x -> forall p a, single_moved s p x a.
+Proof.
+  intros s x Hs p a u g y Hy g' Hg'. unfold moved_in in Hy. destruct (a =? 0); [contradiction|].
+  destruct (followers (gget s u g) x) as [fs|] eqn:Hf; [|contradiction].
+  eapply Hs; [exact Hf| |exact Hg']. destruct (0 <? a); [eapply reached_incl; exact Hy|exact Hy].
+Qed.
+
+Lemma single_moved_ext : forall s p p' x a,
+  (forall L t, In x (lay s L) -> In t (lay s L) -> p' t = p t) -> single_moved s p x a -> single_moved s p' x a.
+Proof.
+  intros s p p' x a E H u g y Hy. apply (H u g y).
+  destruct (in_dec Nat.eq_dec x (gget s u g)) as [Hin|Hn].
+  - rewrite <- (moved_in_ext (sz s) (sz s) p p' (gget s u g) x a); [exact Hy|].
+    intros t Ht. split; [apply (E (LG u g) t Hin Ht)|reflexivity].
+  - exfalso. destruct (moved_in_In _ _ _ _ _ _ Hy) as [A _]. contradiction.
+Qed.
+
+Definition resize_ok (s : state) (x : nat) (a : Z) : Prop := link_ok s x /\ single_moved s (rel s) x a.
 
 (* no layout holds two different signals of the list (excludes D36) *)
 Definition unshared (s : state) (xs : list nat) : Prop :=
   forall L x y, In x xs -> In y xs -> In x (lay s L) -> In y (lay s L) -> x = y.
 
-Definition enum_resize_ok (s : state) (e : nat) : Prop :=
-  (forall x, In x (erefs s e) -> resize_ok s x) /\ unshared s (erefs s e).
+Definition enum_resize_ok (s : state) (e : nat) (a : Z) : Prop :=
+  (forall x, In x (erefs s e) -> resize_ok s x a) /\ unshared s (erefs s e).
 
 Definition ok_op (s : state) (o : op) : Prop :=
   match o with
@@ -442,14 +465,14 @@ Definition ok_op (s : state) (o : op) : Prop :=
   | OMuxShiftL u x _ | OMuxShiftR u x _ =>
       forall ids, ugids s u x = Some ids -> forall g, ids = [g] ->
         forall g', In x (gget s u g') -> g' = Z.to_nat g
-  | OSetType x _ => resize_ok s x
-  | OSetEnum x _ => resize_ok s x
+  | OSetType x n => resize_ok s x (n - sz s x)
+  | OSetEnum x e => resize_ok s x (esize s e - sz s x)
   | OAddValue e idx =>
-      emax s e < idx -> esize_of (emin s e) idx <> esize s e -> enum_resize_ok s e
+      emax s e < idx -> esize_of (emin s e) idx <> esize s e -> enum_resize_ok s e (esize_of (emin s e) idx - esize s e)
   | OUpdateIndex v idx =>
       forall e, vpar s v = Some e ->
         esize_of (emin s e) (Z.max (Z.max 0 idx) (max_index s (lrem v (evals s e)))) <> esize s e ->
-        enum_resize_ok s e
+        enum_resize_ok s e (esize_of (emin s e) (Z.max (Z.max 0 idx) (max_index s (lrem v (evals s e)))) - esize s e)
   | OSetMinSize e n =>
       forall x, In x (erefs s e) -> attached s x -> esize_of n (emax s e) <= esize s e
   | _ => True
@@ -1293,7 +1316,7 @@ Definition modify_post (s : state) (x : nat) (a : Z) (p0 lenG : nat -> Z) (s1 : 
   exists p, s1 = set_rel s p
     /\ (r = VOk -> ok_all s p (upd lenG x (sz s x + a)))
     /\ (r <> VOk -> ok_all s p lenG)
-    /\ (forall y, p y <> p0 y -> exists L, In x (lay s L) /\ In y (lay s L)).
+    /\ (forall y, p y <> p0 y -> exists L, In x (lay s L) /\ In y (lay s L) /\ forall L', In y (lay s L') -> L' = L).
 
 Section Resize.
   Variable s : state.
@@ -1340,7 +1363,7 @@ Section Resize.
       eapply ok_ext; [|apply (Hcur L)]. intros t Ht. split.
       + destruct (Z.eq_dec (p t) (p0 t)) as [E|NE']; [exact E|]. destruct (Hfr t NE') as [_ U]. exfalso. apply NE. apply U. exact Ht.
       + unfold upd. destruct (Nat.eqb_spec t x) as [->|]; [|reflexivity]. exfalso. apply NE. apply Honly. exact Ht.
-    - intros y Hy. destruct (Hfr y Hy) as [Hin _]. exists L0. split; assumption.
+    - intros y Hy. destruct (Hfr y Hy) as [Hin Hex]. exists L0. split; [exact H0|split; [exact Hin|exact Hex]].
   Qed.
 
   (* --- message path --- *)
@@ -1409,17 +1432,17 @@ Section Resize.
   (* --- multiplexer path --- *)
   Variable u : nat.
   Hypothesis Ha : a <> 0.
-  Hypothesis Hsingle : single_followers s x.
+  Hypothesis Hsingle : single_moved s p0 x a.
   Hypothesis Hshrink : a < 0 -> verify_shrink (sz s) x (- a) = None.
   Let gsz := mux_gsize s u.
 
-  Definition mover (y : nat) : Prop := exists g fs, followers (gget s u g) x = Some fs /\ In y fs.
+  (* the signals the change moves in group g (computed on the positions before the change) *)
+  Definition mvg (g : nat) : list nat := moved_in (sz s) p0 (gget s u g) x a.
 
-  Lemma mover_only : forall g fs y, followers (gget s u g) x = Some fs -> In y fs ->
-    forall L, In y (lay s L) -> L = LG u g.
+  Lemma mover_only : forall g y, In y (mvg g) -> forall L, In y (lay s L) -> L = LG u g.
   Proof.
-    intros g fs y Hf Hy L HL.
-    assert (Hyg : In y (gget s u g)) by (destruct (followers_In _ _ _ Hf) as [_ B]; apply B; exact Hy).
+    intros g y Hy L HL.
+    assert (Hyg : In y (gget s u g)) by (destruct (moved_in_In _ _ _ _ _ _ Hy) as [_ B]; exact B).
     pose proof (a_excl s HI (LG u g) L y Hyg HL) as E. destruct L as [m|u' g']; cbn in E; [contradiction|].
     subst u'. f_equal. eapply Hsingle; eauto.
   Qed.
@@ -1427,14 +1450,7 @@ Section Resize.
   Definition Mixed (p : nat -> Z) (done : list nat) : Prop :=
     (forall g, In g done -> In x (gget s u g) -> ok p len' 0 gsz (gget s u g))
     /\ (forall L, ~ (exists g, L = LG u g /\ In g done /\ In x (gget s u g)) -> ok p lenG 0 (lsz s L) (lay s L))
-    /\ (forall y, p y <> p0 y -> mover y).
-
-  Lemma x_not_mover : ~ mover x.
-  Proof.
-    intros [g [fs [Hf Hx]]]. destruct (followers_In _ _ _ Hf) as [Hin _].
-    pose proof (cur_ok_sz (LG u g) Hin) as Hok. cbn [lay lsz] in Hok.
-    destruct (ok_split_at _ _ _ _ _ _ _ Hok Hf) as [_ Hn]. contradiction.
-  Qed.
+    /\ (forall y, p y <> p0 y -> exists g, In g done /\ In y (mvg g)).
 
   Lemma mixed_init : Mixed p0 [].
   Proof.
@@ -1449,26 +1465,33 @@ Section Resize.
     (e = None -> Mixed p' (g :: done)) /\ (e <> None -> 0 < a).
   Proof.
     intros p done g (M1 & M2 & M3) Hnd.
+    (* the group not yet visited still has the positions it had before the change *)
+    assert (Hpg : forall t, In t (gget s u g) -> p t = p0 t).
+    { intros t Ht. destruct (Z.eq_dec (p t) (p0 t)) as [E|NE]; [exact E|]. exfalso.
+      destruct (M3 t NE) as [g1 [Hd1 Hm1]]. pose proof (mover_only g1 t Hm1 (LG u g) Ht) as E. inversion E; subst. contradiction. }
+    assert (Hmv : moved_in (sz s) p (gget s u g) x a = mvg g).
+    { unfold mvg. apply moved_in_ext. intros t Ht. split; [apply Hpg; exact Ht|reflexivity]. }
+    assert (M3' : forall p', (forall y, ~ In y (mvg g) -> p' y = p y) -> forall y, p' y <> p0 y -> exists g', In g' (g :: done) /\ In y (mvg g')).
+    { intros p' Hfr y Hy. destruct (in_dec Nat.eq_dec y (mvg g)) as [Hyf|Hyn]; [exists g; split; [left; reflexivity|exact Hyf]|].
+      rewrite (Hfr y Hyn) in Hy. destruct (M3 y Hy) as [g' [Hd Hm]]. exists g'. split; [right; exact Hd|exact Hm]. }
     destruct (in_dec Nat.eq_dec x (gget s u g)) as [Hin|Hn].
     - (* x is in the group *)
       assert (Hokg : ok p (sz s) 0 gsz (gget s u g)).
       { eapply ok_ext; [|apply (M2 (LG u g))].
         - intros t Ht. split; [reflexivity|]. symmetry. apply (Hagree (LG u g) Hin t Ht).
         - intros [g' [E [Hd _]]]. inversion E; subst. contradiction. }
-      destruct (followers (gget s u g) x) as [fs|] eqn:Hf; [|apply followers_None in Hf; contradiction].
-      assert (Hframe_ok : forall p', (forall y, ~ In y fs -> p' y = p y) ->
+      assert (Hframe_ok : forall p', (forall y, ~ In y (mvg g) -> p' y = p y) ->
                  ok p' (upd (sz s) x (sz s x + a)) 0 gsz (gget s u g) -> Mixed p' (g :: done)).
       { intros p' Hfr Hok'. split; [|split].
         - intros g' [<-|Hd] Hx'; [apply (to_len' (LG u g) p' Hin Hok')|].
           eapply ok_ext; [|apply (M1 g' Hd Hx')]. intros t Ht. split; [|reflexivity]. apply Hfr.
-          intros Hfs. pose proof (mover_only g fs t Hf Hfs (LG u g') Ht) as E. inversion E; subst. contradiction.
+          intros Hfs. pose proof (mover_only g t Hfs (LG u g') Ht) as E. inversion E; subst. contradiction.
         - intros L HL. assert (HL' : ~ (exists g', L = LG u g' /\ In g' done /\ In x (gget s u g'))).
           { intros [g' [E [Hd Hx']]]. apply HL. exists g'. split; [exact E|split; [right; exact Hd|exact Hx']]. }
           eapply ok_ext; [|apply (M2 L HL')]. intros t Ht. split; [|reflexivity]. apply Hfr.
-          intros Hfs. pose proof (mover_only g fs t Hf Hfs L Ht) as E. subst L.
+          intros Hfs. pose proof (mover_only g t Hfs L Ht) as E. subst L.
           apply HL. exists g. split; [reflexivity|split; [left; reflexivity|exact Hin]].
-        - intros y Hy. destruct (in_dec Nat.eq_dec y fs) as [Hyf|Hyn]; [exists g, fs; split; assumption|].
-          apply M3. rewrite <- (Hfr y Hyn). exact Hy. }
+        - apply M3'. exact Hfr. }
       destruct (Z.ltb_spec 0 a) as [Hpos|Hneg].
       + (* grow *)
         destruct (do_grow (sz s) p gsz (gget s u g) x a) as [e p'] eqn:E.
@@ -1476,20 +1499,21 @@ Section Resize.
         assert (Ep : p' = snd (do_grow (sz s) p gsz (gget s u g) x a)) by (rewrite E; reflexivity).
         split; [|intros _; exact Hpos]. intros ->. symmetry in Ee. apply do_grow_ok_iff in Ee; [|exact Ha].
         apply Hframe_ok.
-        * intros y Hy. rewrite Ep. apply do_grow_frame. intros fs' Hfs'. assert (fs' = fs) by congruence. subst fs'. exact Hy.
+        * intros y Hy. rewrite Ep. apply do_grow_frame_moved; [exact Hpos|]. rewrite Hmv. exact Hy.
         * rewrite Ep. apply ok_grow; assumption.
       + (* shrink *)
         assert (Hlt : a < 0) by lia. specialize (Hshrink Hlt).
         unfold do_shrink. destruct (Z.eqb_spec (- a) 0); [lia|]. rewrite Hshrink.
         split; [|intros C; congruence]. intros _.
         apply Hframe_ok.
-        * intros y Hy. apply shrink_loop_false_frame. intros fs' Hfs'. assert (fs' = fs) by congruence. subst fs'. exact Hy.
+        * intros y Hy. apply (shrink_frame_moved p (sz s)); [exact Hlt|]. rewrite Hmv. exact Hy.
         * replace (sz s x + a) with (sz s x - - a) by lia. apply ok_shrink; try assumption; lia.
     - (* x is not in the group: nothing moves *)
       assert (Hsame : Mixed p (g :: done)).
-      { split; [|split; [|exact M3]].
+      { split; [|split].
         - intros g' [<-|Hd] Hx'; [contradiction|apply M1; assumption].
-        - intros L HL. apply M2. intros [g' [E [Hd Hx']]]. apply HL. exists g'. split; [exact E|split; [right; exact Hd|exact Hx']]. }
+        - intros L HL. apply M2. intros [g' [E [Hd Hx']]]. apply HL. exists g'. split; [exact E|split; [right; exact Hd|exact Hx']].
+        - apply (M3' p). intros; reflexivity. }
       destruct (Z.ltb_spec 0 a) as [Hpos|Hneg].
       + destruct (do_grow (sz s) p gsz (gget s u g) x a) as [e p'] eqn:E.
         assert (Ep : p' = p).
@@ -1551,10 +1575,12 @@ Section Resize.
     - pose proof (ok_In _ _ _ _ _ _ Hok Ht) as B. unfold len' in B. rewrite upd_other in B by exact NE. lia.
   Qed.
 
-  Lemma mixed_movers : forall p done y, Mixed p done -> p y <> p0 y -> exists L, In x (lay s L) /\ In y (lay s L).
+  Lemma mixed_movers : forall p done y, Mixed p done -> p y <> p0 y ->
+    exists L, In x (lay s L) /\ In y (lay s L) /\ forall L', In y (lay s L') -> L' = L.
   Proof.
-    intros p done y (_ & _ & M3) Hy. destruct (M3 y Hy) as [g [fs [Hf Hin]]].
-    destruct (followers_In _ _ _ Hf) as [Hx B]. exists (LG u g). split; [exact Hx|apply B; exact Hin].
+    intros p done y (_ & _ & M3) Hy. destruct (M3 y Hy) as [g [_ Hm]].
+    destruct (moved_in_In _ _ _ _ _ _ Hm) as [Hx Hyg]. exists (LG u g). split; [exact Hx|split; [exact Hyg|]].
+    intros L' HL'. apply (mover_only g y Hm L' HL').
   Qed.
 End Resize.
 
@@ -1572,7 +1598,7 @@ Qed.
 
 Lemma mux_modify_post : forall s x a p0 lenG u, InvA s -> ok_all s p0 lenG ->
   (forall L, In x (lay s L) -> forall t, In t (lay s L) -> lenG t = sz s t) ->
-  1 <= sz s x + a -> single_followers s x ->
+  1 <= sz s x + a -> single_moved s p0 x a ->
   (forall L, In x (lay s L) -> exists g, L = LG u g /\ forall gs, groups_of s u x = Some gs -> In g gs) ->
   (forall gs, groups_of s u x = Some gs -> NoDup gs) ->
   modify_post s x a p0 lenG (fst (mux_modify_size (set_rel s p0) u x a)) (snd (mux_modify_size (set_rel s p0) u x a))
@@ -1609,8 +1635,8 @@ Proof.
     + intros E. destruct e as [c|]; [|congruence]. destruct (R2 ltac:(discriminate)) as [Hpos [done' HM]].
       eapply mixed_old with (p := p') (done := done'); eassumption.
     + intros y Hy. destruct e as [c|].
-      * destruct (R2 ltac:(discriminate)) as [_ [done' HM]]. eapply mixed_movers; eassumption.
-      * eapply mixed_movers; [apply (R1 eq_refl)|exact Hy].
+      * destruct (R2 ltac:(discriminate)) as [_ [done' HM]]. eapply (mixed_movers s x a p0 lenG H u Hsingle p' done'); eassumption.
+      * eapply (mixed_movers s x a p0 lenG H u Hsingle p' (rev gs ++ [])); [apply (R1 eq_refl)|exact Hy].
   - intros Hneg _ _. destruct e as [c|]; [|reflexivity]. destruct (R2 ltac:(discriminate)) as [Hpos _]. lia.
 Qed.
 
@@ -1620,11 +1646,11 @@ Proof. destruct r; [left; reflexivity|right; discriminate|right; discriminate]. 
 (* signal.modifySize under the link hypothesis *)
 Lemma sig_modify_post : forall s x a p0 lenG, InvA s -> ok_all s p0 lenG ->
   (forall L, In x (lay s L) -> forall t, In t (lay s L) -> lenG t = sz s t) ->
-  1 <= sz s x + a -> resize_ok s x ->
+  1 <= sz s x + a -> link_ok s x -> single_moved s p0 x a ->
   modify_post s x a p0 lenG (fst (sig_modify_size (set_rel s p0) x a)) (snd (sig_modify_size (set_rel s p0) x a))
   /\ (a < 0 -> snd (sig_modify_size (set_rel s p0) x a) = VOk).
 Proof.
-  intros s x a p0 lenG H Hcur Hagree Hnew [(Ltop & Lgrp & Lnd & Lfree) Hsingle]. unfold sig_modify_size.
+  intros s x a p0 lenG H Hcur Hagree Hnew (Ltop & Lgrp & Lnd & Lfree) Hsingle. unfold sig_modify_size.
   change (pmux (set_rel s p0) x) with (pmux s x). change (pmsg (set_rel s p0) x) with (pmsg s x).
   destruct (pmux s x) as [u|] eqn:Epu.
   - destruct (mux_modify_post s x a p0 lenG u H Hcur Hagree Hnew Hsingle) as [A B].
@@ -1704,19 +1730,20 @@ Proof.
   - apply (a_vals s H).
 Qed.
 
-Lemma sig_modify_post0 : forall s x a, InvA s -> 1 <= sz s x + a -> resize_ok s x ->
+Lemma sig_modify_post0 : forall s x a, InvA s -> 1 <= sz s x + a -> resize_ok s x a ->
   modify_post s x a (rel s) (sz s) (fst (sig_modify_size s x a)) (snd (sig_modify_size s x a)).
 Proof.
-  intros s x a H Hnew Hr.
-  destruct (sig_modify_post s x a (rel s) (sz s) H (a_ok s H) (fun _ _ _ _ => eq_refl) Hnew Hr) as [A _].
+  intros s x a H Hnew [Hl Hr].
+  destruct (sig_modify_post s x a (rel s) (sz s) H (a_ok s H) (fun _ _ _ _ => eq_refl) Hnew Hl Hr) as [A _].
   rewrite <- (set_rel_id s) in A. exact A.
 Qed.
 
-Lemma inv_set_type : forall s x n, InvA s -> resize_ok s x -> InvA (fst (step_set_type s x n)).
+Lemma inv_set_type : forall s x n, InvA s -> resize_ok s x (n - sz s x) -> InvA (fst (step_set_type s x n)).
 Proof.
   intros s x n H Hr. unfold step_set_type. destruct (kind s x) as [old| |] eqn:Ek; try exact H.
   destruct (Z.leb_spec n 0); [exact H|].
   assert (Eold : sz s x = old) by (unfold sz; rewrite Ek; reflexivity).
+  rewrite Eold in Hr.
   pose proof (sig_modify_post0 s x (n - old) H ltac:(lia) Hr) as P.
   destruct (sig_modify_size s x (n - old)) as [s1 r]. cbn [fst snd] in P.
   destruct P as [p [-> [Pok [Perr _]]]].
@@ -1737,7 +1764,7 @@ Proof.
   - apply InvA_set_rel; [exact H|apply Perr; discriminate].
 Qed.
 
-Lemma inv_set_enum : forall s x e, InvA s -> vsig s x = true -> resize_ok s x -> InvA (fst (step_set_enum s x e)).
+Lemma inv_set_enum : forall s x e, InvA s -> vsig s x = true -> resize_ok s x (esize s e - sz s x) -> InvA (fst (step_set_enum s x e)).
 Proof.
   intros s x e H Hx Hr. unfold step_set_enum. destruct (kind s x) as [|old|] eqn:Ek; try exact H.
   assert (Hnew : 1 <= sz s x + (esize s e - sz s x)).
@@ -1793,19 +1820,28 @@ Proof. intros s p len len' E H L. eapply ok_ext; [|apply (H L)]. intros t _. spl
 Lemma memb_app : forall x l1 l2, memb x (l1 ++ l2) = memb x l1 || memb x l2.
 Proof. intros. unfold memb. apply existsb_app. Qed.
 
+(* positions that differ from those of the state belong to signals held by one layout only, and
+   that layout holds one of the signals of D *)
+Definition moved_with (s : state) (p : nat -> Z) (D : list nat) : Prop :=
+  forall y, p y <> rel s y ->
+    exists d L, In d D /\ In d (lay s L) /\ In y (lay s L) /\ forall L', In y (lay s L') -> L' = L.
+
 Lemma refs_loop : forall s a old n', InvA s -> a <> 0 -> n' = old + a -> 1 <= n' ->
   forall R D p,
   (forall y, In y (D ++ R) -> sz s y = old) ->
   ok_all s p (bump s D n') ->
   NoDup (D ++ R) -> unshared s (D ++ R) ->
-  (forall x, In x R -> resize_ok s x) ->
+  (forall x, In x R -> resize_ok s x a) ->
+  moved_with s p D ->
   exists p', fst (refs_modify (set_rel s p) R a) = set_rel s p'
     /\ (snd (refs_modify (set_rel s p) R a) = VOk -> ok_all s p' (bump s (D ++ R) n'))
     /\ (snd (refs_modify (set_rel s p) R a) <> VOk ->
-        0 < a /\ exists D', (forall y, In y D' -> In y (D ++ R)) /\ ok_all s p' (bump s D' n')).
+        0 < a /\ exists D', (forall y, In y D' -> In y (D ++ R)) /\ ok_all s p' (bump s D' n'))
+    /\ moved_with s p' (D ++ R).
 Proof.
-  intros s a old n' H Ha En Hn'. induction R as [|r R' IH]; intros D p Hsz Hcur Hnd Hun Hres.
-  - cbn [refs_modify fst snd]. exists p. split; [reflexivity|]. split; [intros _; rewrite app_nil_r; exact Hcur|intros C; congruence].
+  intros s a old n' H Ha En Hn'. induction R as [|r R' IH]; intros D p Hsz Hcur Hnd Hun Hres Hmw.
+  - cbn [refs_modify fst snd]. exists p. split; [reflexivity|]. split; [intros _; rewrite app_nil_r; exact Hcur|].
+    split; [intros C; congruence|rewrite app_nil_r; exact Hmw].
   - cbn [refs_modify].
     assert (Hr : sz s r = old) by (apply Hsz; apply in_or_app; right; left; reflexivity).
     assert (HrD : ~ In r D).
@@ -1815,9 +1851,27 @@ Proof.
       assert (t = r).
       { apply (Hun L t r); [apply in_or_app; left; exact Em|apply in_or_app; right; left; reflexivity|exact Ht|exact HL]. }
       subst t. contradiction. }
-    destruct (sig_modify_post s r a p (bump s D n') H Hcur Hagree ltac:(lia) (Hres r (or_introl eq_refl))) as [A B].
+    (* the layouts holding r still have the positions of the state *)
+    assert (Hsame : forall L t, In r (lay s L) -> In t (lay s L) -> p t = rel s t).
+    { intros L t HL Ht. destruct (Z.eq_dec (p t) (rel s t)) as [E|NE]; [exact E|]. exfalso.
+      destruct (Hmw t NE) as (d & L' & Hd & HdL & HtL & Hex). pose proof (Hex L Ht) as EL. subst L'.
+      assert (d = r).
+      { apply (Hun L d r); [apply in_or_app; left; exact Hd|apply in_or_app; right; left; reflexivity|exact HdL|exact HL]. }
+      subst d. contradiction. }
+    destruct (Hres r (or_introl eq_refl)) as [Hlink Hsm].
+    assert (Hsm' : single_moved s p r a) by (eapply single_moved_ext; [|exact Hsm]; intros L t HL Ht; apply (Hsame L t HL Ht)).
+    destruct (sig_modify_post s r a p (bump s D n') H Hcur Hagree ltac:(lia) Hlink Hsm') as [A B].
     destruct (sig_modify_size (set_rel s p) r a) as [s1 e]. cbn [fst snd] in A, B.
-    destruct A as [p1 [-> [Aok [Aerr _]]]].
+    destruct A as [p1 [-> [Aok [Aerr Amv]]]].
+    assert (Hmw1 : moved_with s p1 (D ++ [r])).
+    { intros y Hy. destruct (Z.eq_dec (p1 y) (p y)) as [E|NE].
+      - rewrite E in Hy. destruct (Hmw y Hy) as (d & L & Hd & R1 & R2 & R3). exists d, L.
+        split; [apply in_or_app; left; exact Hd|split; [exact R1|split; [exact R2|exact R3]]].
+      - destruct (Amv y NE) as (L & R1 & R2 & R3). exists r, L.
+        split; [apply in_or_app; right; left; reflexivity|split; [exact R1|split; [exact R2|exact R3]]]. }
+    assert (Hmw1' : moved_with s p1 (D ++ r :: R')).
+    { intros y Hy. destruct (Hmw1 y Hy) as (d & L & Hd & Rest). exists d, L. split; [|exact Rest].
+      apply in_app_or in Hd. apply in_or_app. destruct Hd as [Hd|[<-|[]]]; [left; exact Hd|right; left; reflexivity]. }
     destruct e.
     + specialize (Aok eq_refl).
       assert (Hcur' : ok_all s p1 (bump s (D ++ [r]) n')).
@@ -1826,19 +1880,21 @@ Proof.
         destruct (Nat.eqb_spec y r) as [->|NE].
         - rewrite orb_true_r. lia.
         - rewrite !orb_false_r. reflexivity. }
-      destruct (IH (D ++ [r]) p1) as [p' [E1 [E2 E3]]].
+      destruct (IH (D ++ [r]) p1) as [p' [E1 [E2 [E3 E4]]]].
       * intros y Hy. apply Hsz. rewrite <- app_assoc in Hy. exact Hy.
       * exact Hcur'.
       * rewrite <- app_assoc. exact Hnd.
       * rewrite <- app_assoc. exact Hun.
       * intros x Hx. apply Hres. right; exact Hx.
+      * exact Hmw1.
       * exists p'. split; [exact E1|]. split; [intros E; rewrite <- app_assoc in E2; apply E2; exact E|].
+        split; [|rewrite <- app_assoc in E4; exact E4].
         intros C. destruct (E3 C) as [Hpos [D' [Hin HD']]]. split; [exact Hpos|]. exists D'. split; [|exact HD'].
         intros y Hy. specialize (Hin y Hy). rewrite <- app_assoc in Hin. exact Hin.
-    + exists p1. split; [reflexivity|]. split; [discriminate|]. intros _.
+    + exists p1. split; [reflexivity|]. split; [discriminate|]. split; [|exact Hmw1']. intros _.
       split; [|exists D; split; [intros y Hy; apply in_or_app; left; exact Hy|apply Aerr; discriminate]].
       destruct (Z.lt_trichotomy a 0) as [Hneg|[E0|Hpos]]; [specialize (B Hneg); discriminate|congruence|exact Hpos].
-    + exists p1. split; [reflexivity|]. split; [discriminate|]. intros _.
+    + exists p1. split; [reflexivity|]. split; [discriminate|]. split; [|exact Hmw1']. intros _.
       split; [|exists D; split; [intros y Hy; apply in_or_app; left; exact Hy|apply Aerr; discriminate]].
       destruct (Z.lt_trichotomy a 0) as [Hneg|[E0|Hpos]]; [specialize (B Hneg); discriminate|congruence|exact Hpos].
 Qed.
@@ -1851,25 +1907,27 @@ Proof.
 Qed.
 
 (* SignalEnum.modifySize from a well-formed state *)
-Lemma enum_modify_post : forall s e a, InvA s -> 1 <= esize s e + a -> enum_resize_ok s e ->
+Lemma enum_modify_post : forall s e a, InvA s -> 1 <= esize s e + a -> enum_resize_ok s e a ->
   exists p, fst (enum_modify_size s e a) = set_rel s p
     /\ (snd (enum_modify_size s e a) = VOk -> ok_all s p (bump s (erefs s e) (esize s e + a)))
-    /\ (snd (enum_modify_size s e a) <> VOk -> ok_all s p (sz s)).
+    /\ (snd (enum_modify_size s e a) <> VOk -> ok_all s p (sz s))
+    /\ moved_with s p (erefs s e).
 Proof.
   intros s e a H Hnew [Hres Hun]. unfold enum_modify_size.
   assert (Hszr : forall y, In y (erefs s e) -> sz s y = esize s e).
   { intros y Hy. destruct (a_refs2 s H y e Hy) as [K _]. unfold sz. rewrite K. reflexivity. }
   destruct (Z.eqb_spec a 0) as [->|Ha].
-  - cbn [fst snd]. exists (rel s). split; [apply set_rel_id|]. split; [|intros _; exact (a_ok s H)].
+  - cbn [fst snd]. exists (rel s). split; [apply set_rel_id|]. split; [|split; [intros _; exact (a_ok s H)|intros y C; congruence]].
     intros _. eapply ok_all_ext; [|exact (a_ok s H)]. intros y. unfold bump.
     destruct (memb y (erefs s e)) eqn:E; [apply memb_In in E; rewrite (Hszr y E); lia|reflexivity].
-  - destruct (refs_loop s a (esize s e) (esize s e + a) H Ha eq_refl Hnew (erefs s e) [] (rel s)) as [p' [E1 [E2 E3]]].
+  - destruct (refs_loop s a (esize s e) (esize s e + a) H Ha eq_refl Hnew (erefs s e) [] (rel s)) as [p' [E1 [E2 [E3 E4]]]].
     + intros y Hy. apply Hszr. exact Hy.
     + eapply ok_all_ext; [|exact (a_ok s H)]. intros y. reflexivity.
     + apply (a_refs_nd s H).
     + exact Hun.
     + exact Hres.
-    + rewrite <- (set_rel_id s) in *. exists p'. split; [exact E1|]. split; [exact E2|].
+    + intros y C. congruence.
+    + rewrite <- (set_rel_id s) in *. exists p'. split; [exact E1|]. split; [exact E2|]. split; [|exact E4].
       intros C. destruct (E3 C) as [Hpos [D' [Hin HD']]].
       eapply bump_old; [exact H| |exact HD']. intros y Hy. rewrite (Hszr y (Hin y Hy)). lia.
 Qed.
@@ -1979,8 +2037,8 @@ Proof.
       - rewrite E0. unfold enum_modify_size. cbn [Z.eqb fst snd]. exists (rel s0). split; [apply set_rel_id|].
         split; [|intros _; exact (a_ok s0 H0)]. intros _. eapply ok_all_ext; [|exact (a_ok s0 H0)].
         intros y. replace (esize s0 e + 0) with (esize s0 e) by lia. apply bump_same. exact H0.
-      - apply enum_modify_post; [exact H0|exact Hnew|]. apply Hop; [exact Hlt|]. unfold amt in NE0.
-        change (esize s0 e) with (esize s e) in NE0. lia. }
+      - destruct (enum_modify_post s0 e amt H0 Hnew) as [p [P1 [P2 [P3 _]]]]; [|exists p; split; [exact P1|split; [exact P2|exact P3]]].
+        apply Hop; [exact Hlt|]. unfold amt in NE0. change (esize s0 e) with (esize s e) in NE0. lia. }
     destruct (enum_modify_size s0 e amt) as [s1 r]. cbn [fst snd] in Hpost.
     destruct Hpost as [p [-> [Pok Perr]]].
     destruct r; cbn [fst].
@@ -2115,7 +2173,8 @@ Proof.
       - rewrite E0. unfold enum_modify_size. cbn [Z.eqb fst snd]. exists (rel s). split; [apply set_rel_id|].
         split; [|intros _; exact (a_ok s H)]. intros _. eapply ok_all_ext; [|exact (a_ok s H)].
         intros y. replace (esize s e + 0) with (esize s e) by lia. apply bump_same. exact H.
-      - apply enum_modify_post; [exact H|exact Hnew|]. apply (Hop e eq_refl). fold newmax. unfold amt in NE0. lia. }
+      - destruct (enum_modify_post s e amt H Hnew) as [p [P1 [P2 [P3 _]]]]; [|exists p; split; [exact P1|split; [exact P2|exact P3]]].
+        apply (Hop e eq_refl). fold newmax. unfold amt in NE0. lia. }
     destruct (enum_modify_size s e amt) as [s1 r]. cbn [fst snd] in Hpost.
     destruct Hpost as [p [-> [Pok Perr]]].
     destruct r; cbn [fst].
